@@ -333,7 +333,7 @@ def c06_extra(Job, tier):
 
 
 def c07_extra(Job, tier):
-    return trackcheck_jobs(Job) + mmb_jobs(Job) + write_span_jobs(Job)
+    return trackcheck_jobs(Job) + mmb_jobs(Job) + write_span_jobs(Job) + selector_jobs(Job)
 
 
 # ---- destination directory / make_name (C12) ---------------------------------------------------------------------------
@@ -442,3 +442,11 @@ def dump_jobs(Job, cfg=CFG_NDEBUG, tier="quick"):
                 defines=list(cfg[1]), extract=ext(g), tier=tier, cover=True),
             Job("D_dump_sector_addr_%s" % cfg[0], "harness/dfs_dump.c", "h_sector_addr", enforce=["dump_sector_addr"],
                 defines=list(cfg[1]), extract=ext(g), tier=tier, solver="portfolio")]
+
+
+def selector_jobs(Job, cfg=CFG_NDEBUG, tier="quick"):
+    g = ["SurfaceSelector_coerce_long", "SurfaceSelector_parse"]
+    return [Job("D_selector_coerce_%s" % cfg[0], "harness/dfs_selector.c", "h_coerce", enforce=["SurfaceSelector_coerce_long"],
+                defines=list(cfg[1]), extract=ext(g), tier=tier),
+            Job("D_selector_parse_%s" % cfg[0], "harness/dfs_selector.c", "h_parse", enforce=["SurfaceSelector_parse"],
+                replace=["SurfaceSelector_coerce_long"], defines=list(cfg[1]), extract=ext(g), tier=tier, cover=True)]
